@@ -224,7 +224,8 @@ CHECKS = {
    category="other", design_ref="DESIGN.md section 8 C12",
    text="pyvc + seqs on the real tail of Timezone.get_transitions (sort statement with its real key lambda, onset comprehension), for any "
         "number of transitions: transition_times[k] = local[k] - TZOFFSETFROM[k] and the times are ascending (required by pytz's bisect; "
-        "this obligation found the local-time sort, repaired by a fix commit). fin: the offset rounding of _extract_offsets is the identity "
+        "this obligation found the local-time sort, repaired by a fix commit); one generic iteration of the info loop (inner searches "
+        "summarised soundly): every transition reports its TZOFFSETTO and its own name, a STANDARD transition reports zero dst. fin: the offset rounding of _extract_offsets is the identity "
         "on whole minutes (all 86400 values). Statement shapes: observance kind / offsets carried by every transition, RRULE expanded in "
         "the zone of TZOFFSETFROM, PYTZ.create_timezone hands the transitions over unchanged, ZONEINFO hands the component text to tzical, "
         "to_tz(lookup_tzid=False) builds from this component. Cache (pyvc on TZP.cache_timezone_component ; TZP.timezone): a new custom "
